@@ -56,6 +56,11 @@ theorem next_inside (C : Classes) (z : Z) :
   simp only [Z.off, Z.input, List.length_append, List.length_reverse]
   omega
 
+/-- Every token but the EOF is non-empty: it covers at least one byte. -/
+theorem next_nonempty (C : Classes) (z : Z) (h : (next C z).1.ty ≠ .eof) :
+    (next C z).1.pos.off < (next C z).1.stop.off :=
+  (next_res C z).nonempty h
+
 /-- Monotone: the next token never starts before the previous one ended. -/
 theorem next_monotone (C : Classes) (z : Z) :
     (next C z).1.stop.off ≤ (next C (next C z).2).1.pos.off := by
@@ -73,7 +78,7 @@ theorem lexAll_fuel_suffices (C : Classes) (input : Bytes) (k : Nat) :
 
 /-- The executable oracle that judges the implementation's streams holds for the model's
     stream of every input: tokens run left to right, do not overlap, stay inside the input,
-    each ends strictly behind its predecessor, and the stream ends with one EOF at `|input|`. -/
+    each but the EOF is non-empty, and the stream ends with one EOF at `|input|`. -/
 theorem lexAll_ordered (C : Classes) (input : Bytes) :
     ordered input.length 0 (lexAll C input) = true := by
   have := lexF_ordered C (input.length + 2) (Z.init input) (by simp [Z.init])
@@ -84,7 +89,7 @@ theorem lexAll_ordered (C : Classes) (input : Bytes) :
 theorem lex_ends_with_eof (C : Classes) (input : Bytes) :
     ∃ ts e, lexAll C input = ts ++ [e] ∧ e.ty = .eof ∧ e.pos.off = input.length ∧
       e.stop.off = input.length ∧
-      ∀ t ∈ ts, t.ty ≠ .eof ∧ t.pos.off ≤ t.stop.off ∧ t.stop.off ≤ input.length :=
+      ∀ t ∈ ts, t.ty ≠ .eof ∧ t.pos.off < t.stop.off ∧ t.stop.off ≤ input.length :=
   ordered_last _ _ _ (lexAll_ordered C input)
 
 /-- Without overlap, left to right, with progress: for any two tokens of the stream, the later
@@ -97,40 +102,26 @@ theorem lex_no_overlap (C : Classes) (input : Bytes) :
 
 /-! ### cover -/
 
-/-- Cover, lenient reading — for every input: every byte that no token extent contains is a
-    blank, provided an empty `( ) [ ] |` token is taken to cover the character in front of it. -/
-theorem tokens_cover_lenient (C : Classes) (input : Bytes) :
-    covered true input (lexAll C input) = true := by
+/-- **Cover**, for every input, no guard: every byte that no token extent `[Pos.off, End.off)`
+    contains is a blank (0x20) — exactly the bytes `skipSpaces` steps over between tokens and
+    before the EOF.  (Blanks that `scanText` / `scanAccount` trim from the token *value* lie
+    inside the token's extent and are covered.) -/
+theorem tokens_cover (C : Classes) (input : Bytes) : covered input (lexAll C input) = true := by
   rw [covered, List.all_eq_true, lexAll_eq_lexS]
   intro c hc
   have := lexS_covered C input.length (Z.init input) (by simp [Z.init]) c (by simpa [Z.init, Z.input] using hc)
   simp [this]
 
-/-- Cover as the property words it fails: the one-character tokens `( ) [ ] |` are empty and sit
-    behind their character (`makeToken` after `advance`), so that character is in no token.
-    Known finding `punct-empty-extent`; reproduced on the implementation by
-    replays/C06/punct-empty-extent.jsonl. -/
-theorem tokens_cover_counterexample :
-    covered false (asc "a | b") (lexAll Classes.ascii (asc "a | b")) = false ∧
-      (lexAll Classes.ascii (asc "a | b")).map (fun t => (t.ty, t.pos.off, t.stop.off)) =
-        [(.text, 0, 2), (.pipe, 3, 3), (.text, 4, 5), (.eof, 5, 5)] := by
-  decide +kernel
+/-- **Tiling**: the blank runs and the token extents, concatenated in stream order, are the
+    input — every byte lies in exactly one gap or in exactly one token. -/
+theorem tokens_tile (C : Classes) (input : Bytes) : pieces input 0 (lexAll C input) = input := by
+  have := ordered_pieces input 0 (lexAll C input) (lexAll_ordered C input)
+  simpa using this
 
-/-- Strict cover holds whenever the stream contains none of the empty punctuation tokens. -/
-theorem tokens_cover_partial (C : Classes) (input : Bytes)
-    (h : (lexAll C input).all (fun t => !isPunct t) = true) :
-    covered false input (lexAll C input) = true := by
-  have hl := tokens_cover_lenient C input
-  rw [covered] at hl ⊢
-  rw [← gaps_lenient_eq input 0 (lexAll C input)]
-  · exact hl
-  · intro t ht
-    have := List.all_eq_true.mp h t ht
-    simpa using this
-
-/-- non-vacuity of `tokens_cover_partial`: a posting line satisfies the guard -/
-example : (lexAll Classes.ascii (asc "  a:b  1 USD ; c\n")).all (fun t => !isPunct t) = true := by
-  decide +kernel
+/-- the one-character tokens `( ) [ ] |` cover their character (regression example for the
+    repaired finding `punct-empty-extent`) -/
+example : (lexAll Classes.ascii (asc "a | b")).map (fun t => (t.ty, t.pos.off, t.stop.off)) =
+    [(.text, 0, 2), (.pipe, 2, 3), (.text, 4, 5), (.eof, 5, 5)] := by decide +kernel
 
 /-! ### lines -/
 
@@ -149,15 +140,13 @@ theorem token_lines (C : Classes) (input : Bytes) : linesOk input (lexAll C inpu
   simp only [Z.init, Z.input, List.reverse_nil, List.nil_append, countLF] at this
   simp [this]
 
-/-- The verdict of the executable oracle (the one that judges the implementation's streams in
-    `lex.tokens`) on the model's stream of ANY input is "ok" or exactly the known finding. -/
-theorem oracle_on_model (C : Classes) (input : Bytes) :
-    (judge input (lexAll C input)).ok = true ∨
-      (judge input (lexAll C input)).known = ["punct-empty-extent"] := by
+/-- The executable oracle that judges the implementation's streams in `lex.tokens` accepts the
+    model's stream of ANY input. -/
+theorem oracle_on_model (C : Classes) (input : Bytes) : (judge input (lexAll C input)).ok = true := by
   have h1 := lexAll_ordered C input
   have h2 := newlines_are_the_lf_bytes C input
   have h3 := token_lines C input
-  have h4 := tokens_cover_lenient C input
+  have h4 := tokens_cover C input
   have h5 : (lexAll C input).all (fun t => t.ty != .newline ||
       (t.stop.off == t.pos.off + 1 && t.stop.line == t.pos.line + 1 && t.stop.col == 1)) = true := by
     rw [List.all_eq_true, lexAll_eq_lexS]
@@ -171,9 +160,6 @@ theorem oracle_on_model (C : Classes) (input : Bytes) :
     · simp [hty]
   unfold judge
   simp only [h1, h2, h3, h4, h5, Bool.not_true, Bool.false_eq_true, if_false, bne_self_eq_false]
-  split
-  · right; rfl
-  · left; rfl
 
 /-! ### line-locality (lexical premise of C07, layer L2 of C03) -/
 
